@@ -13,6 +13,7 @@ import (
 	"go/ast"
 	"go/token"
 	"path/filepath"
+	"sort"
 	"strings"
 )
 
@@ -319,6 +320,7 @@ func genProbeConsts() {
 			die("%s: docker Scan does not create exactly one moby client", dp.pos(dscan))
 		}
 		var opts []string
+		httpClientCopy := ""
 		for _, a := range nc[0].Args {
 			c, ok := a.(*ast.CallExpr)
 			if !ok {
@@ -331,10 +333,80 @@ func genProbeConsts() {
 			args := make([]string, len(c.Args))
 			for i, x := range c.Args {
 				args[i] = probeSprintf(dp, dscan, x)
+				// &v where v is bound once to *scanner.f: the probe's own copy of that object
+				if u, ok := x.(*ast.UnaryExpr); ok && u.Op == token.AND {
+					if id, ok := u.X.(*ast.Ident); ok {
+						if st, ok := probeResolveLocal(dscan, id).(*ast.StarExpr); ok {
+							args[i] = "copy(" + probeExprString(st.X) + ")"
+							httpClientCopy = id.Name
+						}
+					}
+				}
 			}
 			opts = append(opts, name+"("+strings.Join(args, ",")+")")
 		}
 		fmt.Fprintf(&b, "Definition docker_client_opts : list string := %s%%string.\n", coqStringList(opts))
+		// The moby options configure the *http.Transport they are given from the environment (WithHost ->
+		// sockets.ConfigureTransport: Proxy = ProxyFromEnvironment, Dial = a dialer from ALL_PROXY).  So (1) the
+		// transport handed to moby must be the probe's own: <copy>.Transport = V where V = <something>.Clone() and
+		// that something comes from scanner.client.Transport; (2) after the options ran, V.Proxy and V.Dial(Context)
+		// are set back to nil, so that the connection goes to the probed host itself.
+		transport, resets := "shared", []string{}
+		if httpClientCopy != "" {
+			cloned := map[string]string{} // variable -> what it is a clone of
+			ast.Inspect(dscan, func(n ast.Node) bool {
+				as, ok := n.(*ast.AssignStmt)
+				if !ok || len(as.Lhs) != len(as.Rhs) {
+					return true
+				}
+				for i, l := range as.Lhs {
+					id, ok := l.(*ast.Ident)
+					call, ok2 := as.Rhs[i].(*ast.CallExpr)
+					if ok && ok2 {
+						if sel, ok := call.Fun.(*ast.SelectorExpr); ok && sel.Sel.Name == "Clone" && len(call.Args) == 0 {
+							src := probeExprString(sel.X)
+							// follow `x, _ := scanner.client.Transport.(*http.Transport)`
+							ast.Inspect(dscan, func(m ast.Node) bool {
+								if a2, ok := m.(*ast.AssignStmt); ok && len(a2.Rhs) == 1 {
+									if ta, ok := a2.Rhs[0].(*ast.TypeAssertExpr); ok && len(a2.Lhs) >= 1 && probeExprString(a2.Lhs[0]) == src {
+										src = probeExprString(ta.X)
+									}
+								}
+								return true
+							})
+							cloned[id.Name] = src
+						}
+					}
+				}
+				return true
+			})
+			ast.Inspect(dscan, func(n ast.Node) bool {
+				as, ok := n.(*ast.AssignStmt)
+				if !ok || len(as.Lhs) != 1 || len(as.Rhs) != 1 {
+					return true
+				}
+				l := probeExprString(as.Lhs[0])
+				r := probeExprString(as.Rhs[0])
+				if l == httpClientCopy+".Transport" {
+					if src, ok := cloned[r]; ok {
+						transport = "clone(" + src + ")"
+						// resets after the client was created
+						ast.Inspect(dscan, func(m ast.Node) bool {
+							a2, ok := m.(*ast.AssignStmt)
+							if ok && len(a2.Lhs) == 1 && len(a2.Rhs) == 1 && a2.Pos() > nc[0].End() &&
+								strings.HasPrefix(probeExprString(a2.Lhs[0]), r+".") && probeExprString(a2.Rhs[0]) == "nil" {
+								resets = append(resets, strings.TrimPrefix(probeExprString(a2.Lhs[0]), r+"."))
+							}
+							return true
+						})
+					}
+				}
+				return true
+			})
+		}
+		sort.Strings(resets)
+		str("docker_probe_transport", transport)
+		fmt.Fprintf(&b, "Definition docker_transport_resets : list string := %s%%string.\n", coqStringList(resets))
 		ic := probeFindCalls(dscan, "Info")[0]
 		vc := probeFindCalls(dscan, "ServerVersion")[0]
 		dw, da := probeRecvMutations(dscan)
